@@ -318,15 +318,24 @@ func runScenario(res *hx.Result, sc scenario, idx int) {
 		select {
 		case err := <-done:
 			el := time.Since(t0)
-			// leftover node locks / item lock records would make it wait for their TTL (= maxTime of the failed writer) or fail
-			if err != nil || el > maxTime/2 {
+			// Lock release is judged by what it is about: node locks by the lock-table probe above, item lock
+			// records by the conflict the follow-up gets.  Its duration is NOT a criterion (load-sensitive).
+			res.Count("followup.elapsed_ms." + fmt.Sprint(bucket(int(el/time.Millisecond)/50)))
+			switch {
+			case err == nil:
+			case strings.Contains(err.Error(), "lock(item"):
+				// the message text is the only discriminator between an item lock record and anything else
 				released = false
-				sig := "locks-left-behind:" + sc.Kind
-				if err != nil && strings.Contains(err.Error(), "lock(item") {
-					// the message text is the only discriminator between an item lock record and a node lock
-					sig = "item-lock-records-left-behind"
-				}
-				res.Fail(sig, fmt.Sprintf("follow-up transaction on the same keys: err=%v after %v (maxTime of the writers %v, any writer failed=%v)", err, el, maxTime, anyErr), sc)
+				res.Fail("item-lock-records-left-behind", fmt.Sprintf("follow-up transaction on the same keys: err=%v after %v (maxTime of the writers %v, any writer failed=%v)", err, el, maxTime, anyErr), sc)
+			case sc.DeadlineMs > 0 && strings.Contains(err.Error(), "exceeded retry limit"):
+				// not a lock: a writer whose context expired mid-commit rolls back under the expired context and
+				// cannot undo its registry claims (inactive ids with a fresh timestamp); the next writer of those
+				// nodes is refused for the IsExpiredInactive window.  Recorded under C07/C08
+				// (retry-blocked/leftover-claimed-inactive-id, next-writer-refused/...); the lock table is clean (probe above).
+				res.Count("followup.refused_by_leftover_claims_after_deadline")
+			default:
+				released = false
+				res.Fail("followup-refused:"+sc.Kind, fmt.Sprintf("follow-up transaction on the same keys: err=%v after %v (maxTime of the writers %v, no expired context explains leftovers; any writer failed=%v)", err, el, maxTime, anyErr), sc)
 			}
 		case <-time.After(40 * time.Second):
 			released = false
